@@ -8,7 +8,7 @@
     a model that looked at [rest] or beyond would return [Crash].  [pton4]/[pton6] stand for
     inet_pton(AF_INET/AF_INET6, ..) > 0 and are arbitrary unless a contract is stated. *)
 From Qv Require Import Common.Bytes Gen.GenAddr Model.InetPton Model.Addr Spec.AddrSpec Spec.AddrGrammar Proofs.AddrTheorems
-  Proofs.DomainEquiv Proofs.LocalEquiv Proofs.ParseaddrEquiv Proofs.XtextEquiv Proofs.AddrsyntaxEquiv.
+  Proofs.DomainEquiv Proofs.LocalEquiv Proofs.ParseaddrEquiv Proofs.XtextEquiv Proofs.AddrsyntaxEquiv Proofs.LiteralEquiv.
 
 (** 1. domainvalid() accepts only fully-qualified host names: >= 2 labels of 1..63 letters, digits or hyphens,
     <= 255 octets, last label >= 2 characters and not all-numeric.  (Holds for the tree with
@@ -196,6 +196,16 @@ Theorem C14_xtext_iff : forall pton4 pton6 s rest n, ~ In 0%N s -> (0 <= n)%Z ->
   (xtextlen pton4 pton6 (s ++ 0%N :: rest) = Ok n <-> xtext_accept pton4 pton6 s n).
 Proof. exact xtextlen_iff. Qed.
 Print Assumptions C14_xtext_iff.
+
+(** Address literals.  In all theorems above the text inside the brackets is judged by the ORACLE pton4 / pton6
+    (inet_pton of libc).  About the reference implementation the extracted model runs (Model/InetPton.v, glibc's
+    algorithm, compared with libc by the differential run): the IPv4 text it accepts is exactly
+    Snum "." Snum "." Snum "." Snum, Snum = decimal 0..255 without a leading zero ([dotted_quad]; RFC 5321 would also
+    allow 1*3DIGIT with leading zeros, glibc does not).  For IPv6 only the character contract (C14_oracle_ref) is
+    proved; its grammar is covered by the differential run only. *)
+Theorem C14_ipv4_literal : forall s, pton4_ref s = true <-> dotted_quad s.
+Proof. exact pton4_ref_iff. Qed.
+Print Assumptions C14_ipv4_literal.
 
 (** the hypotheses are met by non-trivial inputs *)
 Definition ex_line : bytes :=     (* @a.example.org,@b.example.org:Foo@Bar.example.com> x *)
